@@ -70,6 +70,9 @@ SITES = {
     "column_on_conflict": lambda Q, N: Q.into(T()).insert(1).on_conflict(N).do_update(N, 2),
     "column_using": lambda Q, N: Q.from_(T()).join(U()).using(N).select(T().a),
     "table_alias": lambda Q, N: Q.from_(Table("t", alias=N)).select(Table("t", alias=N).a).where(Table("t", alias=N).b == 1),
+    "table_alias_star": lambda Q, N: (lambda ta: Q.from_(ta).join(U()).on(ta.id == U().id).select(ta.star, U().a))(Table("t", alias=N)),
+    "table_alias_star_single": lambda Q, N: (lambda ta: Q.from_(ta).select(ta.star))(Table("t", alias=N)),
+    "subquery_alias_star": lambda Q, N: (lambda s: Q.from_(s).select(s.star))(Q.from_(T()).select("a").as_(N)),
     "term_alias": lambda Q, N: Q.from_(T()).select(T().a.as_(N)),
     "term_alias_func": lambda Q, N: Q.from_(T()).select(FN.Max(T().a).as_(N), (T().b + 1).as_("k")),
     "alias_ref_group_order": lambda Q, N: Q.from_(T()).select((T().a + 1).as_(N), FN.Count("*")).groupby((T().a + 1).as_(N)).orderby((T().a + 1).as_(N)),
@@ -98,6 +101,8 @@ SITES = {
     "delete_where_subquery_alias": lambda Q, N: (lambda s: Q.from_(T()).delete().where(T().id.isin(Q.from_(s).select(s.id))))(
         Q.from_(U()).select("id").as_(N)),
     "insert_select_subquery_alias": lambda Q, N: (lambda s: Q.into(T()).columns("a").from_(s).select(s.x))(Q.from_(U()).select("x").as_(N)),
+    "ddl_period_end": lambda Q, N: Q.create_table("t").columns("a9", N).period_for("p9", "a9", N),
+    "ddl_period_end_col": lambda Q, N: Q.create_table("t").columns("a9", N).period_for("p9", Column("a9"), Column(N)),
     "ddl_period": lambda Q, N: Q.create_table("t").columns("a", "b").period_for(N, "a", "b"),
     "ddl_period_cols": lambda Q, N: Q.create_table("t").columns(N, "b").period_for("p", N, "b"),
     "setop_order_alias": lambda Q, N: Q.from_(T()).select(T().a.as_(N)).union(Q.from_(U()).select(U().a.as_(N))).orderby(T().a.as_(N)),
@@ -111,6 +116,10 @@ REQUIRED_IDS = {"schema_nested3_mid": ["top9", "s9", "t"], "schema_nested3_first
                 "schema_database": ["s9", "t"], "schema_nested": ["s", "t"]}
 EXPECT_ABSENT = {"alias_of_sibling_only"}
 EXPECT_COUNTS = {"ddl_constraint_case": (3, 1), "ddl_constraint_case_late": (1, 2)}
+# exact number of times the name must be emitted (absolute: the benign rendering is made by the same library)
+NAME_COUNT = {"table_alias_star": 3, "table_alias_star_single": 2, "subquery_alias_star": 2, "ddl_period_end": 2, "ddl_period_end_col": 2,
+              "ddl_period_cols": 2, "ddl_period": 1, "table_alias": 3, "subquery_alias": 2, "ddl_column": 3}
+REQUIRED_MORE = {"ddl_period_end": ["a9", "p9"], "ddl_period_end_col": ["a9", "p9"], "ddl_period_cols": ["b", "p"]}
 
 
 def render(o, Q):
@@ -172,7 +181,11 @@ def run_case(case):
     key = (d, site)
     if key not in _BEN:
         bsql = render(SITES[site](Q, BENIGN), Q)
-        _BEN[key] = (bsql, [(t.kind, t.value, t.text[:1]) for t in lex(bsql, lexd)])
+        try:
+            _BEN[key] = (bsql, [(t.kind, t.value, t.text[:1]) for t in lex(bsql, lexd)])
+        except LexError as e:
+            res.violate("C07|%s|%s|unlexable" % (site, d), "the statement does not lex even with a plain name", dialect=d, site=site, name=BENIGN, sql=bsql, error=str(e))
+            return res
     bsql, bt = _BEN[key]
     res.transitions += 1
     res.outcomes.append(h64(sql))
@@ -227,7 +240,13 @@ def run_case(case):
                 res.violate(sigbase + ("" if quote_in_name else "|structure"), "the name changed another token of the statement",
                             dialect=d, site=site, name=N, sql=sql, benign=bsql, token=t.text)
                 return res
-    for need in REQUIRED_IDS.get(site, ()):
+    if site in NAME_COUNT and N not in ("t", "u", "a", "b", "p", "s", "id", "x"):
+        got_n = sum(1 for t in toks if t.kind == "ID" and t.value == N)
+        if got_n != NAME_COUNT[site]:
+            res.violate("C07|%s|name-count" % site, "the name is emitted %d times, expected %d (it stands where another name belongs, or is missing where it belongs)"
+                        % (got_n, NAME_COUNT[site]), dialect=d, site=site, name=N, sql=sql)
+            return res
+    for need in list(REQUIRED_IDS.get(site, ())) + REQUIRED_MORE.get(site, []):
         if not any(t.kind == "ID" and t.value == need for t in toks):
             res.violate("C07|%s|qualifier-lost" % site, "a qualifier of the multi-level name (%r) is not emitted" % need, dialect=d, site=site, name=N, sql=sql)
             return res
